@@ -227,6 +227,10 @@ func instances() []inst {
 	add("pattern", `{"pattern":"^a"}`)
 	add("pattern", `{"pattern":"b$"}`)
 	add("pattern", `{"pattern":"^..$"}`)
+	add("pattern", `{"pattern":"^\\u0041\\u0042$"}`)
+	add("pattern", `{"pattern":"[\\u00C9\\u00D8x]"}`)
+	add("pattern", `{"pattern":"^\\u00e9"}`)        // hexadecimal digits in lower case
+	add("pattern", `{"pattern":"^\\\\u0041$"}`) // an escaped backslash, then the letters u0041
 	add("minItems", `{"minItems":1}`)
 	add("minItems", `{"minItems":2}`)
 	add("uniqueItems", `{"uniqueItems":true}`)
@@ -259,7 +263,7 @@ func instances() []inst {
 
 var enumValues = []string{
 	`null`, `true`, `false`, `0`, `1`, `2`, `3`, `-1`, `1.5`, `0.5`, `2.5`, `5`, `6`, `15`, `7.5`, `2147483648`, `2147483649`, `9007199254740992`,
-	`""`, `"a"`, `"ab"`, `"abc"`, `"b"`, `"é"`, `"😀"`, `"é😀"`, `"1"`,
+	`""`, `"a"`, `"ab"`, `"abc"`, `"b"`, `"é"`, `"AB"`, `"Øx"`, `"\\u0041"`, `"A"`, `"😀"`, `"é😀"`, `"1"`,
 	`[]`, `[1]`, `[1,1]`, `[1,2]`, `[1,"a"]`, `["a","a"]`, `[null]`, `[[1],[1]]`, `[{"a":1},{"a":1}]`, `[1,2,3]`, `[1.5]`, `["ab"]`,
 	`{}`, `{"a":1}`, `{"a":null}`, `{"b":1}`, `{"a":1,"b":2}`, `{"a":"x","b":null}`, `{"a":{"a":1}}`, `{"a":3,"c":[1]}`, `{"c":null}`, `{"a":"ab"}`, `{"a":true,"b":"a","c":1}`,
 }
